@@ -1,10 +1,18 @@
 (* C15 -- splitting and cleaning a curve never change the curve.  Statements only; proofs in
    Lemmas/SplitClean.v.  Range: closed curves made of STRAIGHT segments, all rational data, all
    lists of (segment index, parameter) pairs, repeated and nearly equal ones included (split is
-   total on valid requests: C15_split_total; F15/F15c repaired).  Curved pieces
-   (pynurbs knot insertion + least-squares degree reduction) are covered by the oracle only. *)
+   total on valid requests: C15_split_total; F15/F15c repaired).
+   CURVED segments of degree <= 6 (Lemmas/SplitCurved.v): the two pieces of a cut retrace their
+   part of the segment, positions and velocities (C15_curved_retrace), cleaning a piece (exact
+   degree reduction) retraces it too (C15_curved_clean_retrace), and hence ANY split of a closed
+   curve keeps its area and every boundary integral x^a y^b dy the library computes exactly
+   (C15_curved_split_area, C15_curved_split_integrals) -- no hypothesis on the rounding (Qred) or the
+   degree reduction that the split applies to the pieces.  With the node count of the unrepaired
+   code the computed first moment of a cubic changed when the curve was cut (or merely cleaned):
+   C15_old_rule_refuted (F29).  The winding number / point set of curved pieces and the
+   least-squares degree reduction of pynurbs on inexact data stay with the oracle. *)
 From Coq Require Import List Sorted.
-From SV Require Import Spec.Spec Lemmas.Lines Lemmas.SplitClean Lemmas.SplitTotal.
+From SV Require Import Spec.Spec Lemmas.Lines Lemmas.SplitClean Lemmas.SplitTotal Lemmas.QuadCurved Lemmas.SplitCurved.
 Open Scope Q_scope.
 
 (* each piece retraces its part of the original segment:
@@ -88,3 +96,40 @@ Example C15_equal_nodes_merged :
   Jordan.split sq [0%nat; 0%nat; 0%nat] [1#2; 1#2; 50000000000000001#100000000000000000] =
   Jordan.split sq [0%nat] [1#2].
 Proof. vm_compute. reflexivity. Qed.
+
+(* ---- curved segments (degree <= 6) ---- *)
+Theorem C15_curved_retrace : forall s u, (2 <= length s <= 7)%nat ->
+  retraces (fst (split_at u s)) s 0 u /\ retraces (snd (split_at u s)) s u 1.
+Proof. exact split_at_retraces. Qed.
+Theorem C15_curved_clean_retrace : forall s, (2 <= length s <= 7)%nat ->
+  retraces (seg_clean s) s 0 1 /\ (2 <= length (seg_clean s) <= length s)%nat.
+Proof. exact seg_clean_retraces. Qed.
+Theorem C15_curved_split_area : forall j idx nodes j',
+  (forall s, In s j -> (1 <= degree s <= 6)%nat) ->
+  Jordan.split j idx nodes = Ok j' -> jordan_area j' == jordan_area j.
+Proof. exact split_area_curved. Qed.
+Theorem C15_curved_split_integrals : forall j idx nodes j' ex ey,
+  (forall s, In s j -> (1 <= degree s <= 6)%nat /\ (vertical_nodes (degree s) ex ey <= 19)%nat) ->
+  Jordan.split j idx nodes = Ok j' -> jordan_vertical j' ex ey == jordan_vertical j ex ey.
+Proof. exact split_moment_curved. Qed.
+Print Assumptions C15_curved_retrace.
+Print Assumptions C15_curved_clean_retrace.
+Print Assumptions C15_curved_split_area.
+Print Assumptions C15_curved_split_integrals.
+(* non-vacuity: the cap under y = 1 - x^2 cut at 1/3 of its arc: three segments, area 4/3 as before *)
+Example C15_curved_nonvacuous :
+  Jordan.split cap [1%nat] [1 # 3] = Ok cap_cut /\ length cap_cut = 3%nat /\
+  jordan_area cap_cut = 4 # 3 /\ jordan_area cap = 4 # 3.
+Proof.
+  split; [exact cap_split_value|].
+  destruct cap_split_numbers as (H1 & H2 & H3 & _). repeat split; assumption.
+Qed.
+(* the unrepaired node count (F29): cutting a cubic at 1/2 changed its computed first moment *)
+Example C15_old_rule_refuted :
+  exists j', Jordan.split cubic_loop [0%nat] [1 # 2] = Ok j' /\
+    ~ jordan_vertical_old j' 2 0 == jordan_vertical_old cubic_loop 2 0 /\
+    jordan_vertical j' 2 0 = jordan_vertical cubic_loop 2 0.
+Proof.
+  destruct old_rule_split_changes_cubic_moment as (j' & E & _ & _ & N & A & B & _).
+  exists j'. split; [exact E|]. split; [exact N|]. rewrite A, B. reflexivity.
+Qed.
